@@ -24,12 +24,12 @@ import (
 // headers are honoured.
 
 type c29Case struct {
-	ID      int    `json:"id"`
-	PeerIP  string `json:"peer_ip"` // "" = real loopback socket (no PROXY header)
-	PeerPort int   `json:"peer_port"`
-	LocalIP string `json:"local_ip"` // source address to bind for real sockets (127.0.0.x)
-	Headers []hdr  `json:"headers"`
-	Trusted bool   `json:"trusted"` // by the reference membership test
+	ID       int    `json:"id"`
+	PeerIP   string `json:"peer_ip"` // "" = real loopback socket (no PROXY header)
+	PeerPort int    `json:"peer_port"`
+	LocalIP  string `json:"local_ip"` // source address to bind for real sockets (127.0.0.x)
+	Headers  []hdr  `json:"headers"`
+	Trusted  bool   `json:"trusted"` // by the reference membership test
 }
 
 type c29Range struct{ Begin, End string }
@@ -163,7 +163,7 @@ func c29(r *vkit.Run) {
 		Modules: []string{"mod_trust_clientip", "mod_header"},
 		Files: map[string]string{
 			"mod_trust_clientip/trust_client_ip.data": sb.String(),
-			"mod_header/header_rule.data":              `{"Version":"v1","Config":{}}`,
+			"mod_header/header_rule.data":             `{"Version":"v1","Config":{}}`,
 		},
 		Clusters: []e2e.Cluster{{
 			Name: "c29", Hosts: []string{"c29.test"}, MaxIdleConnsPerHost: 4,
